@@ -164,9 +164,9 @@ def run(ctx):
     jobs, chain_jobs = [], []
     ntrig = 0
     for label, consts in configs:
-        strict = ctx.tlc("PTContract", CFG, label=label, constants=dict(consts, Devs="{}", FixedPlan="<< >>", Emit="TRUE"), workers=4)
+        strict = ctx.tlc("PTContract", CFG, label=label, constants=dict(consts, Devs="{}", FixedPlan="<< >>", Dephase="FALSE", Emit="TRUE"), workers=4)
         dev = ctx.tlc("PTContract", CFG, label=label + " [deviation MixedTimeSpecOrder]",
-                      constants=dict(consts, Devs='{"MixedTimeSpecOrder"}', FixedPlan="<< >>", Emit="TRUE"), workers=4)
+                      constants=dict(consts, Devs='{"MixedTimeSpecOrder"}', FixedPlan="<< >>", Dephase="FALSE", Emit="TRUE"), workers=4)
         devrec = {ckey(c): c["recs"] for c in dev.cases}
         ndiff = 0
         ints = []
